@@ -91,7 +91,8 @@ func reachesValueReturn(b *ssa.BasicBlock) bool {
 		}
 		seen[x] = true
 		if ret, ok := x.Instrs[len(x.Instrs)-1].(*ssa.Return); ok && len(ret.Results) > 0 {
-			if !isNilValue(ret.Results[0], 0) {
+			// an error value is a diagnosis, not a parsed construct
+			if !isNilValue(ret.Results[0], 0) && !isErrorType(ret.Results[0].Type()) {
 				return true
 			}
 		}
